@@ -463,6 +463,15 @@ def translate_hex():
     if tm.get('MeshHex1') != 'hexahedron' or tm.get('MeshHex2') != 'hexahedron27' \
             or mt.get('hexahedron') != 'MeshHex1' or mt.get('hexahedron27') != 'MeshHex2':
         raise TranslateError('hexahedron type mapping')
+    sup = ['MeshTri1', 'MeshTri2', 'MeshQuad1', 'MeshQuad2', 'MeshTet1', 'MeshTet2', 'MeshHex1', 'MeshHex2']
+    for c in list(tm) + list(mt.values()) + list(mt):
+        if not (c.isascii() and c.replace('_', 'a').isalnum()):
+            raise TranslateError(f'type name {c!r}')
+    assoc = lambda d: clist([f'("{k}"%string, "{v}"%string)' for k, v in d.items()])
+    global CLASS_TABLES
+    CLASS_TABLES = ('Definition gen_type_of_class : list (string * string) := ' + assoc(tm) + '.   (* TYPE_MESH_MAPPING *)\n'
+                    'Definition gen_class_of_type : list (string * string) := ' + assoc(mt) + '.   (* MESH_TYPE_MAPPING *)\n'
+                    'Definition supported_classes : list string := ' + clist([f'"{c}"%string' for c in sup]) + '.')
     nat_list = lambda l: clist([cnat(x) for x in l])
     return (f'Definition HEX_MAPPING : list nat := {nat_list(hm)}.\n'
             f'(* the value of the module constant; INV_HEX_MAPPING is defined in the source as\n'
@@ -473,6 +482,8 @@ def translate_hex():
             f'Definition gen_hex1_in : list nat := {in1}.     (* from_meshio, hexahedron *)\n'
             f'Definition gen_hex2_in : list nat := {in2}.     (* from_meshio, hexahedron27 *)'), tm, mt
 
+
+CLASS_TABLES = ''
 
 HEADER = '''(* GENERATED by vlib/c17_translate.py from skfem/mesh/mesh.py and skfem/io/meshio.py — do not edit *)
 From Coq Require Import List Arith Bool ZArith NArith.
@@ -485,5 +496,6 @@ Require Import Model.C17_TagCodec.
 def translate():
     hx, tm, mt = translate_hex()
     codec, keys = translate_codec()
-    parts = [HEADER, codec, hx, translate_dict(), 'Import String.   (* string literals below *)', keys, translate_npz()]
+    parts = [HEADER, codec, hx, translate_dict(), 'Import String.   (* string literals below *)', keys, translate_npz(),
+             CLASS_TABLES]
     return '\n\n'.join(parts) + '\n', tm, mt
